@@ -24,13 +24,67 @@ class XSlice(Slice):
     def place(self, pl):
         for u in place_upvars(pl):
             self._resolve_upvar(u)
-        return Slice.place(self, pl)
+        for (adt, f, _v) in core.place_fields(pl):
+            self.sources.add(("field", adt, f))
+        for u in place_upvars(pl):
+            self.sources.add(("upvar", u))
+        ctx = None
+        for e in pl.get("pj", []):
+            if isinstance(e, dict) and "ix" in e:
+                self._local(e["ix"], None)
+            if ctx is None and isinstance(e, dict) and ("f" in e or "up" in e):
+                ctx = e.get("f") or e.get("up")
+        self._local(pl["l"], ctx)
+        return self
 
     def local(self, l):
+        return self._local(l, None)
+
+    @staticmethod
+    def _first_field(pl):
+        for e in pl.get("pj", []):
+            if isinstance(e, dict) and ("f" in e or "up" in e):
+                return e.get("f") or e.get("up")
+        return None
+
+    def _local(self, l, ctx):
+        """as Slice.local, but field sensitive for partial writes: `x.f = v` / `(*p).f = v` is not a
+        definition of what a read of `x.g` / `(*p).g` observes"""
+        if l in self.seen or len(self.seen) > self.max_nodes:
+            return
+        self.seen.add(l)
         b = self.body
-        if l not in self.seen and 1 <= l <= b.argc and b.parent is None:
-            self.sources.add(("rparam", b.id, l))
-        return Slice.local(self, l)
+        if 1 <= l <= b.argc:
+            if not (b.kind == "Closure" and l == 1):
+                self.sources.add(("param", l, b.local_name(l)))
+            if b.parent is None:
+                self.sources.add(("rparam", b.id, l))
+        for d in b.defs().get(l, []):
+            if d[0] == "assign":
+                lf = self._first_field(d[3]["lhs"])
+                if ctx is not None and lf is not None and lf != ctx:
+                    continue
+                self.rvalue(d[3]["rv"])
+            elif d[0] == "call":
+                t = d[2]
+                lf = self._first_field(t["dest"])
+                if ctx is not None and lf is not None and lf != ctx:
+                    continue
+                k = callee_key(t)
+                if k is None:
+                    self.sources.add(("call", "<indirect>"))
+                    for a in t["args"]:
+                        self.operand(a)
+                    self.operand(t["f"])
+                    continue
+                self.sources.add(("call", k))
+                self.call_sites.append((d[1], t))
+                decl = callee_decl(t)
+                if self.through_calls or core.TRANSPARENT.match(k) or (decl and core.TRANSPARENT.match(decl)):
+                    for a in t["args"]:
+                        self.operand(a)
+            elif d[0] == "yield":
+                self.sources.add(("yield",))
 
     def _resolve_upvar(self, u):
         b = self.body
@@ -135,14 +189,20 @@ def excludes_learners(F, closure_ids):
     return (ops == ["Ne"]), "role tests found: %s" % (ops or "none")
 
 
+def name_matches(k, rx):
+    """regex search over every generic-stripped spelling of a callee path"""
+    r = re.compile(rx) if isinstance(rx, str) else rx
+    return bool(k) and any(r.search(n) for n in core.name_variants(k))
+
+
 def reaches(F, root, rx, depth):
     r = re.compile(rx)
-    return F.fn_reaches(root, lambda k: bool(r.search(strip_generics(k))), depth)
+    return F.fn_reaches(root, lambda k: name_matches(k, r), depth)
 
 
 def call_reaches_rx(F, t, rx, depth):
     r = re.compile(rx)
-    return F.call_reaches(t, lambda k: bool(k) and bool(r.search(strip_generics(k))), depth)
+    return F.call_reaches(t, lambda k: name_matches(k, r), depth)
 
 
 # calls that make bytes durable or at least hand them to a file / database
